@@ -239,4 +239,269 @@ theorem genEntropy_rounds_monotone (j : Rng) (r r' : Nat) (hrr : r ≤ r') (rs :
     exact (List.take_sublist _ _).countP_le
   omega
 
+/-! # J3 — the stuck test, and timers it rejects for ever -/
+
+/-! ## the test itself (wrapping `i32` arithmetic) -/
+
+/-- **J3.**  `EcState::stuck(current_delta)` reports "stuck" iff the delta is zero (the timer did not
+    advance), or it equals the previous delta (`delta2 = last_delta − current_delta = 0`), or the first
+    difference repeats (`delta3 = delta2 − last_delta2 = 0`). -/
+theorem stuck_iff (ec : Ec) (d : U32) :
+    (stuck ec d).1 = true ↔ d = 0 ∨ d = ec.lastDelta ∨ ec.lastDelta - d = ec.lastDelta2 :=
+  stuck_fst_iff ec d
+
+/-- the history it keeps: the delta and the first difference -/
+theorem stuck_state (ec : Ec) (d : U32) : (stuck ec d).2 = ⟨ec.prevTime, d, ec.lastDelta - d⟩ := rfl
+
+/-- `delta2 = 0` iff the delta repeats -/
+theorem delta2_zero_iff (last cur : U32) : last - cur = 0 ↔ cur = last := by
+  rw [sub_eq_zero_iff]; exact eq_comm
+
+/-- `delta3 = 0` iff the increase of the delta repeats: `d₂ − d₁ = d₁ − d₀` -/
+theorem delta3_zero_iff (d₀ d₁ d₂ : U32) : (d₁ - d₂) - (d₀ - d₁) = 0 ↔ d₂ - d₁ = d₁ - d₀ :=
+  sub_sub_eq_zero_iff d₀ d₁ d₂
+
+/-- … iff `2·d₁ − d₂ − d₀ = 0`: the three deltas are in arithmetic progression (mod 2^32) -/
+theorem delta3_zero_iff' (d₀ d₁ d₂ : U32) : (d₁ - d₂) - (d₀ - d₁) = 0 ↔ 2 * d₁ - d₂ - d₀ = 0 := by
+  rw [sub_eq_zero_iff, sub_eq_zero_iff]
+  constructor <;> intro h <;> bv_omega
+
+theorem delta3_zero_iff'' (d₀ d₁ d₂ : U32) : (d₁ - d₂) - (d₀ - d₁) = 0 ↔ d₂ + d₀ = 2 * d₁ := by
+  rw [sub_eq_zero_iff]
+  constructor <;> intro h <;> bv_omega
+
+/-- the test on a history of three consecutive deltas `d₀, d₁, d₂` (whatever came before): stuck iff
+    `d₂ = 0`, or `d₂ = d₁`, or `d₂ − d₁ = d₁ − d₀` -/
+theorem stuck_history (ec : Ec) (d₀ d₁ d₂ : U32) :
+    (stuck (stuck (stuck ec d₀).2 d₁).2 d₂).1 = true ↔ d₂ = 0 ∨ d₂ = d₁ ∨ d₂ - d₁ = d₁ - d₀ := by
+  rw [stuck_iff]
+  simp only [stuck_state]
+  rw [← sub_eq_zero_iff (d₁ - d₂), delta3_zero_iff]
+
+/-- the first measurement of a collection (history `0, 0`) is stuck iff its delta is zero -/
+theorem stuck_first (t₀ : U64) (d : U32) : (stuck ⟨t₀, 0, 0⟩ d).1 = true ↔ d = 0 := by
+  rw [stuck_iff]
+  dsimp only
+  constructor
+  · rintro (h | h | h)
+    · exact h
+    · exact h
+    · bv_omega
+  · exact fun h => .inl h
+
+/-- the second one iff its delta is zero, repeats the first, or is twice the first (the initial
+    history acts as a delta `0` before the first one) -/
+theorem stuck_second (t₀ : U64) (d₁ d₂ : U32) :
+    (stuck (stuck ⟨t₀, 0, 0⟩ d₁).2 d₂).1 = true ↔ d₂ = 0 ∨ d₂ = d₁ ∨ d₂ = 2 * d₁ := by
+  rw [stuck_iff]
+  simp only [stuck_state]
+  constructor
+  · rintro (h | h | h)
+    · exact .inl h
+    · exact .inr (.inl h)
+    · exact .inr (.inr (by bv_omega))
+  · rintro (h | h | h)
+    · exact .inl h
+    · exact .inr (.inl h)
+    · exact .inr (.inr (by bv_omega))
+
+/-- `measure_jitter` on readings `[c, t, e, …]`: the verdict is "stuck" (`false`) iff the delta
+    `(t − prev_time) as i32` meets one of the three conditions; the new `EcState` records the time
+    reading, the delta and the first difference. -/
+theorem measureJitter_verdict (j : Rng) (ec : Ec) (c t e : U64) (rest : List U64) (ok : Bool) (j₁ : Rng)
+    (ec₁ : Ec) (rs₁ : List U64) (h : measureJitter j ec (c :: t :: e :: rest) = some ((ok, j₁, ec₁), rs₁)) :
+    (ok = false ↔ deltaOf ec t = 0 ∨ deltaOf ec t = ec.lastDelta ∨ ec.lastDelta - deltaOf ec t = ec.lastDelta2) ∧
+      ec₁ = ⟨t, deltaOf ec t, ec.lastDelta - deltaOf ec t⟩ ∧ rs₁ = rest := by
+  rw [PoolJitter.measureJitter_cons3] at h
+  simp only [Option.some.injEq, Prod.mk.injEq] at h
+  obtain ⟨⟨hok, _, hec⟩, hrs⟩ := h
+  refine ⟨?_, hec.symm, hrs.symm⟩
+  rw [← hok]
+  have := stuck_iff { ec with prevTime := t } (deltaOf ec t)
+  simp only [Bool.not_eq_false']
+  exact this
+
+/-! ## broken timers
+
+`deltaSeq rs` is the list of 32-bit deltas a collection computes from the reading list `rs`
+(`= JitterProc.deltas (JitterProc.times rs)`: priming reading, then the middle reading of every group of
+three); `StepBy b ds`: every element of `ds` exceeds its predecessor by `b` (wrapping) — an arithmetic
+progression; `StepBy 0 ds`: all elements equal. -/
+
+/-- `deltaSeq` is the specification's delta list of the time stamps -/
+theorem deltaSeq_eq (rs : List U64) : deltaSeq rs = JitterProc.deltas (JitterProc.times rs) :=
+  measurements_delta rs
+
+/-- `StepBy 0`: all deltas are equal -/
+theorem stepBy_zero (d : U32) (l : List U32) : StepBy 0 (d :: l) ↔ ∀ x ∈ l, x = d :=
+  stepBy_zero_iff d l
+
+/-- **constant step.**  If all deltas of a reading list are equal (a timer advancing by a constant
+    step), every measurement from the second on is stuck. -/
+theorem constant_step_stuck_from_second (rs : List U64) (h : StepBy 0 (deltaSeq rs)) :
+    ∀ m ∈ (measurements rs).tail, m.stuck = true :=
+  stuck_from_second rs h
+
+/-- **arithmetic progression.**  If the deltas form an arithmetic progression (a timer whose step
+    grows by a constant), every measurement from the third on is stuck. -/
+theorem arithmetic_step_stuck_from_third (b : U32) (rs : List U64) (h : StepBy b (deltaSeq rs)) :
+    ∀ m ∈ (measurements rs).drop 2, m.stuck = true :=
+  stuck_from_third b rs h
+
+/-- … hence `gen_entropy` (`rounds ≥ 1`) never returns on a constant-step timer: on *every* finite
+    script with equal deltas it runs dry — whatever the pool, the loop-count readings, the length. -/
+theorem genEntropy_constant_step_none (j : Rng) (hr : 0 < j.rounds) (rs : List U64)
+    (h : StepBy 0 (deltaSeq rs)) : genEntropy j rs = none := by
+  refine (C12.genEntropy_none_iff j rs).2 (.inr ?_)
+  rw [accepted_eq_zero _ (stuck_from_second rs h)]
+  exact hr
+
+/-- … and with `rounds ≥ 2` it never returns on a timer whose deltas are in arithmetic progression
+    (the measurement after the priming one may still be accepted, none after it). -/
+theorem genEntropy_arithmetic_step_none (j : Rng) (hr : 2 ≤ j.rounds) (b : U32) (rs : List U64)
+    (h : StepBy b (deltaSeq rs)) : genEntropy j rs = none := by
+  refine (C12.genEntropy_none_iff j rs).2 (.inr ?_)
+  have hs := stuck_from_third b rs h
+  revert hs
+  rcases measurements rs with _ | ⟨m1, _ | ⟨m2, l⟩⟩ <;> intro hs
+  · simp [accepted]; omega
+  · simp [accepted]; omega
+  · simp only [List.tail_cons, List.drop_succ_cons, List.drop_zero] at hs ⊢
+    rw [accepted_cons, accepted_eq_zero _ hs]
+    cases m2.stuck <;> simp <;> omega
+
+/-- the same for `next_u64` -/
+theorem nextU64_constant_step_none (j : Rng) (hr : 0 < j.rounds) (rs : List U64)
+    (h : StepBy 0 (deltaSeq rs)) : nextU64 j rs = none :=
+  genEntropy_constant_step_none { j with halfUsed := false } hr rs h
+
+theorem nextU64_arithmetic_step_none (j : Rng) (hr : 2 ≤ j.rounds) (b : U32) (rs : List U64)
+    (h : StepBy b (deltaSeq rs)) : nextU64 j rs = none :=
+  genEntropy_arithmetic_step_none { j with halfUsed := false } hr b rs h
+
+/-! ### … on time stamps
+
+`linearTimes t s n = [t, t+s, t+2s, …]` (`n` stamps), `quadraticTimes t d b n = [t, t+d, t+2d+b, t+3d+3b, …]`
+(increments `d, d+b, d+2b, …`), in wrapping 64-bit arithmetic; `JitterProc.times rs` are the time stamps of
+a reading list (priming reading, then the middle one of every three); `script t₀ ms` is the reading list
+with priming reading `t₀` and one `(loop-count, time, loop-count)` triple per measurement. -/
+
+/-- a timer advancing by the constant step `s`: `gen_entropy` never returns -/
+theorem genEntropy_linear_timer_none (j : Rng) (hr : 0 < j.rounds) (rs : List U64) (t s : U64) (n : Nat)
+    (h : JitterProc.times rs = linearTimes t s n) : genEntropy j rs = none :=
+  genEntropy_constant_step_none j hr rs (stepBy_of_linear rs t s n h)
+
+/-- a timer whose step grows by the constant `b` per reading: `gen_entropy` (`rounds ≥ 2`) never returns -/
+theorem genEntropy_quadratic_timer_none (j : Rng) (hr : 2 ≤ j.rounds) (rs : List U64) (t d b : U64) (n : Nat)
+    (h : JitterProc.times rs = quadraticTimes t d b n) : genEntropy j rs = none :=
+  genEntropy_arithmetic_step_none j hr _ rs (stepBy_of_quadratic rs t d b n h)
+
+/-- scripts: whatever the loop-count readings are, only the time stamps matter -/
+theorem genEntropy_linear_script_none (j : Rng) (hr : 0 < j.rounds) (t₀ s : U64) (ms : List (U64 × U64 × U64))
+    (h : t₀ :: ms.map (·.2.1) = linearTimes t₀ s (ms.length + 1)) : genEntropy j (script t₀ ms) = none :=
+  genEntropy_linear_timer_none j hr _ t₀ s _ (by rw [times_script, h])
+
+theorem genEntropy_quadratic_script_none (j : Rng) (hr : 2 ≤ j.rounds) (t₀ d b : U64) (ms : List (U64 × U64 × U64))
+    (h : t₀ :: ms.map (·.2.1) = quadraticTimes t₀ d b (ms.length + 1)) : genEntropy j (script t₀ ms) = none :=
+  genEntropy_quadratic_timer_none j hr _ t₀ d b _ (by rw [times_script, h])
+
+/-! ### … and the rounds loop itself (`collect`), from any collector state
+
+`measFrom ec rs` (Lib/JitterRefine) lists the measurements `⟨delta, verdict⟩` the loop will see when it
+starts with `EcState` `ec` on readings `rs`. -/
+
+/-- if the previous delta was `d` and every further delta is `d`, the loop never accepts anything:
+    `collect` ends in `none`, whatever the fuel -/
+theorem collect_constant_step_none (fuel need : Nat) (j : Rng) (ec : Ec) (rs : List U64) (d : U32)
+    (hl : ec.lastDelta = d) (h : ∀ m ∈ measFrom ec rs, m.delta = d) :
+    collect fuel (need + 1) j ec rs = none :=
+  collect_none_of_stuck fuel need j ec rs (measFrom_stuck_of_const d ec rs hl h)
+
+/-- if the first difference was `b` the last time (`last_delta2 = −b`) and stays `b`, likewise -/
+theorem collect_arithmetic_step_none (fuel need : Nat) (j : Rng) (ec : Ec) (rs : List U64) (b : U32)
+    (h2 : ec.lastDelta2 = 0 - b) (h : StepBy b (ec.lastDelta :: (measFrom ec rs).map (·.delta))) :
+    collect fuel (need + 1) j ec rs = none :=
+  collect_none_of_stuck fuel need j ec rs (measFrom_stuck_of_stepBy b ec rs h2 h)
+
+/-! # the hypotheses are satisfiable (all evaluated by the kernel) -/
+
+/-- a generator with `rounds = 1` / `rounds = 2` -/
+def g1 : Rng := { newWithTimer with rounds := 1 }
+def g2 : Rng := { newWithTimer with rounds := 2 }
+
+/-- `genEntropy_injective_in_each_delta`: deltas 5, 12, 43 against 5, 13, 43, all accepted — the
+    second list has every time stamp from the second measurement on delayed by 1 -/
+example :
+    usedMeas g2.rounds [100, 0, 105, 0, 0, 117, 0, 0, 160, 0] = some ([⟨5, false⟩] ++ ⟨12, false⟩ :: [⟨43, false⟩]) ∧
+    usedMeas g2.rounds [100, 0, 105, 0, 0, 118, 0, 0, 161, 0] = some ([⟨5, false⟩] ++ ⟨13, false⟩ :: [⟨43, false⟩]) := by
+  decide +kernel
+
+example :
+    (genEntropy g2 [100, 0, 105, 0, 0, 117, 0, 0, 160, 0]).map (fun r => (r.1.1, r.2)) = some (0x6c380e0e6c8b361b#64, []) ∧
+    (genEntropy g2 [100, 0, 105, 0, 0, 118, 0, 0, 161, 0]).map (fun r => (r.1.1, r.2)) = some (0x8e2d3c5b9b121ba2#64, []) := by
+  decide +kernel
+
+/-- `genEntropy_last_time_reading`: the last time reading 160 against 161 (other loop-count readings,
+    one reading left over) — different values; against `160 + 2^32` — the same value, as the theorem says -/
+example :
+    (genEntropy g2 ([100, 0, 105, 0, 0, 117, 0] ++ 0 :: 160 :: 0 :: [])).map (fun r => (r.1.1, r.2)) =
+      some (0x6c380e0e6c8b361b#64, []) ∧
+    (genEntropy g2 ([100, 0, 105, 0, 0, 117, 0] ++ 3 :: 161 :: 4 :: [77])).map (fun r => (r.1.1, r.2)) =
+      some (0xe8c39b93b32428b3#64, [77]) ∧
+    (genEntropy g2 ([100, 0, 105, 0, 0, 117, 0] ++ 3 :: 0x1000000a0 :: 4 :: [77])).map (fun r => (r.1.1, r.2)) =
+      some (0x6c380e0e6c8b361b#64, [77]) := by
+  decide +kernel
+
+/-- `genEntropy_rounds_monotone` / `genEntropy_consumed`: on the same ten readings `rounds = 1`
+    consumes 7 and `rounds = 2` consumes 10 -/
+example :
+    (genEntropy { g2 with rounds := 1 } [100, 0, 105, 0, 0, 117, 0, 0, 160, 0]).map (fun r => (r.1.1, r.2)) =
+      some (0x034bc20d8979cd71#64, [0, 160, 0]) ∧
+    (genEntropy { g2 with rounds := 2 } [100, 0, 105, 0, 0, 117, 0, 0, 160, 0]).map (fun r => (r.1.1, r.2)) =
+      some (0x6c380e0e6c8b361b#64, []) := by
+  decide +kernel
+
+/-- a constant-step script (time stamps 100, 110, 120, 130; arbitrary loop-count readings): the
+    hypothesis of `genEntropy_linear_script_none` holds … -/
+example : (100 : U64) :: [((0 : U64), (110 : U64), (0 : U64)), (1, 120, 2), (3, 130, 4)].map (·.2.1) =
+    linearTimes 100 10 4 := by decide
+
+/-- … and indeed (evaluated independently of the theorem) the collection runs dry -/
+example : genEntropy g1 (script 100 [(0, 110, 0), (1, 120, 2), (3, 130, 4)]) = none := by decide +kernel
+
+example : genEntropy g1 (script 100 [(0, 110, 0), (1, 120, 2), (3, 130, 4)]) = none :=
+  genEntropy_linear_script_none g1 (by decide) 100 10 _ (by decide)
+
+/-- a script with steps 5, 7, 9, 11 (time stamps 100, 105, 112, 121, 132): hypothesis of
+    `genEntropy_quadratic_script_none` … -/
+example : (100 : U64) :: [((0 : U64), (105 : U64), (0 : U64)), (1, 112, 2), (3, 121, 4), (5, 132, 6)].map (·.2.1) =
+    quadraticTimes 100 5 2 5 := by decide
+
+example : genEntropy g2 (script 100 [(0, 105, 0), (1, 112, 2), (3, 121, 4), (5, 132, 6)]) = none :=
+  genEntropy_quadratic_script_none g2 (by decide) 100 5 2 _ (by decide)
+
+/-- … and `rounds ≥ 2` cannot be weakened: with `rounds = 1` the same script yields a value (the
+    measurement after the priming one is accepted) -/
+example : (genEntropy g1 (script 100 [(0, 105, 0), (1, 112, 2), (3, 121, 4), (5, 132, 6)])).map
+    (fun r => (r.1.1, r.2)) = some (0xf4318be415645a6e#64, [3, 121, 4, 5, 132, 6]) := by
+  decide +kernel
+
+/-- `StepBy` on concrete deltas -/
+example : StepBy 0 (deltaSeq (script 100 [(0, 110, 0), (1, 120, 2), (3, 130, 4)])) := by decide +kernel
+example : StepBy 2 (deltaSeq (script 100 [(0, 105, 0), (1, 112, 2), (3, 121, 4), (5, 132, 6)])) := by decide +kernel
+
+/-- `collect_constant_step_none`: previous delta 10, time stamps 110, 120 after 100 -/
+example : (∀ m ∈ measFrom ⟨100, 10, 0⟩ [0, 110, 0, 0, 120, 0], m.delta = 10) := by decide
+example : collect 5 1 g1 ⟨100, 10, 0⟩ [0, 110, 0, 0, 120, 0] = none :=
+  collect_constant_step_none 5 0 g1 _ _ 10 rfl (by decide)
+
+/-- `collect_arithmetic_step_none`: previous delta 10, previous first difference −2, then deltas 12, 14 -/
+example : StepBy 2 ((10 : U32) :: (measFrom ⟨100, 10, 0 - 2⟩ [0, 112, 0, 0, 126, 0]).map (·.delta)) := by decide
+example : collect 5 1 g1 ⟨100, 10, 0 - 2⟩ [0, 112, 0, 0, 126, 0] = none :=
+  collect_arithmetic_step_none 5 0 g1 _ _ 2 rfl (by decide)
+
+/-- `measureJitter_verdict`: a stuck measurement (delta 10 after delta 10) -/
+example : (measureJitter g1 ⟨100, 10, 0⟩ [0, 110, 0]).map (fun r => (r.1.1, r.1.2.2)) =
+    some (false, ⟨110, 10, 0⟩) := by decide +kernel
+
 end Rngs.Extra.JitterEntropy
